@@ -86,6 +86,10 @@ class Operand:
                 return ("num", self.data[0])
             return ("arr", tuple(self.shape), tuple(self.data))
         if cat == "EITH":
+            if k == 43:
+                return ("either", int(self.flag != 0), ("num", self.data[0]))
+            if k == 44:
+                return ("either", int(self.flag != 0), ("arr", tuple(self.shape), tuple(self.data)))
             if self.flag == 0:
                 return ("either", 0, ("num", self.data[0]))
             return ("either", 1, ("arr", tuple(self.shape), tuple(self.data)))
